@@ -387,10 +387,10 @@ impl Graph for SG {
         }
         let fpa = n.h.fp_logic();
         let outs = decode_with_lib(&mut n.peer_de, &o.packets).unwrap_or_default();
-        if n.model.check(a, &o, &outs, &fpb, &fpa).is_ok() {
-            // malformed menu on the new state
+        if self.actions(s).first() == Some(a) {
+            // malformed menu on the state being expanded (once per state)
             for (i, (msid, t, body)) in self.menu.iter().enumerate() {
-                let mut c = n.clone();
+                let mut c = s.clone();
                 let act = SAct::Raw { msid: *msid, type_id: *t, body: body.clone() };
                 let bytes = c.h.peer_bytes(&act).unwrap();
                 let hh = &mut c.h;
@@ -417,6 +417,8 @@ impl Graph for SG {
                     }
                 }
             }
+        }
+        if n.model.check(a, &o, &outs, &fpb, &fpa).is_ok() {
             out.succ.push(n);
         }
         out
@@ -456,10 +458,10 @@ impl Graph for CG {
         }
         let fpa = n.h.fp_logic();
         let outs = decode_with_lib(&mut n.peer_de, &o.packets).unwrap_or_default();
-        if n.model.check(a, &o, &outs, &fpb, &fpa).is_ok() {
+        if self.actions(s).first() == Some(a) {
             for (i, (msid, t, body)) in self.menu.iter().enumerate() {
-                let mut c = n.clone();
-                let msid = if *msid == 1 { n.model.active.unwrap_or(1) } else { *msid };
+                let mut c = s.clone();
+                let msid = if *msid == 1 { s.model.active.unwrap_or(1) } else { *msid };
                 let act = CAct::Raw { msid, type_id: *t, body: body.clone() };
                 let bytes = c.h.peer_bytes(&act).unwrap();
                 let hh = &mut c.h;
@@ -486,6 +488,8 @@ impl Graph for CG {
                     }
                 }
             }
+        }
+        if n.model.check(a, &o, &outs, &fpb, &fpa).is_ok() {
             out.succ.push(n);
         }
         out
@@ -664,7 +668,7 @@ pub fn run(run: &Run) {
     // (c) sessions
     {
         let g = SG { menu: malformed_menu(true, thorough), probes: AtomicU64::new(0), errs: AtomicU64::new(0) };
-        let opts = BfsOptions { max_depth: Some(if thorough { 5 } else { 3 }), max_states: Some(200_000), ..Default::default() };
+        let opts = BfsOptions { max_depth: Some(if thorough { 8 } else { 6 }), max_states: Some(if thorough { 20_000 } else { 1_500 }), ..Default::default() };
         let (stats, viols) = bfs(&g, vec![c09::fresh_state()], &opts);
         states += stats.states;
         trans += stats.transitions + g.probes.load(Ordering::Relaxed);
@@ -676,7 +680,7 @@ pub fn run(run: &Run) {
         run.count("c_server_states", stats.states);
 
         let g = CG { menu: malformed_menu(false, thorough), probes: AtomicU64::new(0), errs: AtomicU64::new(0) };
-        let opts = BfsOptions { max_depth: Some(if thorough { 7 } else { 5 }), max_states: Some(200_000), ..Default::default() };
+        let opts = BfsOptions { max_depth: Some(if thorough { 10 } else { 7 }), max_states: Some(if thorough { 20_000 } else { 1_500 }), ..Default::default() };
         let (stats, viols) = bfs(&g, vec![c10::fresh_state()], &opts);
         states += stats.states;
         trans += stats.transitions + g.probes.load(Ordering::Relaxed);
